@@ -81,7 +81,11 @@ prop("C17", True, "C",
      'Trusted: the counting-rule reference in engine/src/props/c17.rs; dyadic distances make the f64 sums exact.',
      "7/C17")
 prop("C18", False, "D", "", "", NB, "7/C18")
-prop("C20", False, "A+C", "", "", NB, "7/C20")
+prop("C20", True, "A+C",
+     "exhaustive enumeration of every ordered constraint table of <= 3 (4) entries over gaps 0..8 x 3 limits, every split into two add calls and every (gap, distance) probe on the real validate(); exhaustive enumeration of all motion words (still / hops / jump / missed frame) of length 5 (6) on the real Sort / VisualSort with slack and binding tables, admission re-derived from the pre-call store",
+     "Tables: the complete finite product is executed against 'first configured limit of the smallest configured gap >= d', monotone in distance. Trackers: slack tables must give records identical to the unconstrained tracker (differential); with binding tables no continuation may violate the limit for its epoch gap and the association must be optimal among admitted pairs; the number of gated pairs actually removed by a table is reported as vacuity guard.",
+     "Trusted: the table reference and engine/src/props/assoc.rs. One fast object plus a bystander; decisions within 1e-3 of a limit are accepted either way.",
+     "7/C20")
 prop("C19", True, "C",
      "exhaustive enumeration of complete input grids on the real code (every coordinate x base x delta x argument order; every f32 bit pattern in [-1000,1000] for normalize_angle in the thorough tier) against an f64 reference",
      "Every case of the stated finite grids is executed on the implementation and compared with the reference; equality decisions are asserted only outside a 0.1% margin around the library epsilon. This is the right level because the property is a universally quantified statement about pure functions of at most two boxes.",
